@@ -530,10 +530,35 @@ func (fc *FCtx) havoc(st *State, lv loopVars) {
 	}
 	if lv.ghost {
 		for _, g := range fc.ghostNames(st) {
+			if !fc.loopMayModify(g) {
+				continue
+			}
 			old := st.ghost[g]
 			n := fc.U.Fresh("g_"+g, old.S)
 			st.ghost[g] = Val{T: n, S: old.S, GoT: old.GoT}
 		}
+	}
+}
+
+// loopMayModify: ghosts havocked at loop heads are those the enclosing function may modify
+// (its `modifies` list, any cache-context copy); all others are checked unchanged per iteration.
+func (fc *FCtx) loopMayModify(g string) bool {
+	if strings.Contains(g, "@") {
+		return true
+	}
+	return fc.modifiesGhost(g)
+}
+
+func (fc *FCtx) checkLoopFrame(ord int, head, end *State, pos token.Pos) {
+	for _, g := range fc.ghostNames(head) {
+		if fc.loopMayModify(g) {
+			continue
+		}
+		ev, ok := end.ghost[g]
+		if !ok || ev.T == head.ghost[g].T {
+			continue
+		}
+		fc.obligeNamed(end, fmt.Sprintf("inv-preserve#loop%d.frame.%s", ord, g), "inv-preserve", fmt.Sprintf("(= %s %s)", ev.T, head.ghost[g].T), "loop "+fmt.Sprint(ord)+" leaves ghost "+g+" unchanged (not in modifies)", pos)
 	}
 }
 
@@ -641,6 +666,7 @@ func (fc *FCtx) execFor(s *ast.ForStmt, st *State, label string) *Flow {
 		}
 		if e != nil {
 			fc.checkInvs("inv-preserve", ord, ls, e, nil, bodyPos)
+			fc.checkLoopFrame(ord, h, e, bodyPos)
 		}
 	}
 	// exit
@@ -738,6 +764,7 @@ func (fc *FCtx) execRange(s *ast.RangeStmt, st *State, label string) *Flow {
 	if e := fc.merge(ends); e != nil {
 		sp1 := loopSpecials{"#i": Val{T: fmt.Sprintf("(+ %s 1)", gi), S: SInt}, "#n": Val{T: n, S: SInt}, "#coll": coll}
 		fc.checkInvs("inv-preserve", ord, ls, e, sp1, bodyPos)
+		fc.checkLoopFrame(ord, h, e, bodyPos)
 	}
 	x := h.clone()
 	x.assume(fmt.Sprintf("(= %s %s)", gi, n))
